@@ -110,6 +110,8 @@ def run(rec, cfg):
     rng = cfg.rng("c02")
     rules = MR.rule_instances()
     n = cfg.scale(60, 40000)
+    if cfg.shard == 5 % cfg.nshards:
+        RC.wide_ints(rec, rules)
     for src, text, hints in equations(cfg, rng, n):
         if cfg.out_of_time():
             rec.truncated = True
